@@ -5,6 +5,7 @@ from ..summary import Item, items, is_ok, bv
 from . import c05
 
 ID = 'C16'
+ENGINE_B = {'template': 't_inherit', 'kinds': ['layout_'], 'max_quick': 6, 'max_thorough': 24, 'abi': True}
 CC = c05.CC
 EXPLANATION = ('Three templates are executed symbolically: t_impl (impl function), t_vft (vftable block incl. placeholder slots) and '
                't_inherit (the same virtual function seen through derived tables).  The calling-convention attribute ranges over '
@@ -39,8 +40,8 @@ def vft_assume(a, ps):
 
 
 def inh_assume(a, ps):
-    A = [a[0] == ps, a[1] == 1, z3.ULE(a[2], 1), z3.ULE(a[3], 1), z3.ULE(a[4], 1), a[5] == 0, z3.ULE(a[6], 1), a[7] == 0,
-         a[8] == 0, a[9] == 0, a[10] == 0, a[11] == 0, a[12] == 1, z3.ULE(a[13], 8)]
+    A = [a[0] == ps, a[1] == 1, z3.ULE(a[2], 1), z3.ULE(a[3], 1), z3.ULE(a[4], 1), z3.Or(a[5] == 0, a[5] == 5), z3.Implies(a[4] != 1, a[5] == 0),
+         z3.ULE(a[6], 1), a[7] == 0, a[8] == 0, a[9] == 0, a[10] == 0, a[11] == 0, a[12] == 1, z3.ULE(a[13], 8), a[14] == 0]
     return A
 
 
@@ -49,7 +50,7 @@ def slices(tier, rng):
     for ps in (4, 8):
         out.append(Slice('impl-ps%d' % ps, 't_impl', 12, lambda a, ps=ps: impl_assume(a, ps), opts={'must_reach': ['ok', 'err']}, ctx={'t': 'impl'}))
         out.append(Slice('vft-ps%d' % ps, 't_vft', 24, lambda a, ps=ps: vft_assume(a, ps), opts={'must_reach': ['ok', 'err']}, ctx={'t': 'vft'}))
-        out.append(Slice('inherit-ps%d' % ps, 't_inherit', 14, lambda a, ps=ps: inh_assume(a, ps), opts={'must_reach': ['ok', 'err']}, ctx={'t': 'inh'}))
+        out.append(Slice('inherit-ps%d' % ps, 't_inherit', 15, lambda a, ps=ps: inh_assume(a, ps), opts={'must_reach': ['ok', 'err']}, ctx={'t': 'inh'}))
     return out
 
 
@@ -89,9 +90,11 @@ def leaf_queries(I, a, leaf, py, sl):
         return [Query('vftable-slot-conventions', z3.Or(*bad))]
     # inheritance: A::f0 carries convention a[13]; every table that contains f0 must agree
     code = a[13]
-    if not is_ok(py): return [Query('rejected-implies-unknown-convention', code != 8)]
+    # mutation 5: the derived block re-declares f0 as stdcall; that contradicts the base unless the base's f0 is stdcall too (code 3)
+    contradict = z3.And(a[5] == 5, code != 3)
+    if not is_ok(py): return [Query('rejected-implies-unknown-or-contradicting-convention', z3.And(code != 8, z3.Not(contradict)))]
     its = items(py)
-    bad = [code == 8]
+    bad = [code == 8, contradict]
     one = z3.BitVecVal(1, 64)
     for path in ('m::A', 'm::D', 'm::DD'):
         if path not in its: continue
